@@ -13,9 +13,12 @@ def run(ctx):
         ctx.log("deviations exhibited by the tree under test: %s" % dev)
         runs = [("E0", "Inits0", 3, "ModesAll", None), ("E1", "Inits1", 3 if T else 2, "ModesAll", None),
                 ("E2", "Inits2", 3 if T else 2, "ModesOwn", None),
-                ("R", "Inits01", 1000, "ModesAll", ("num=%d" % (1500 if T else 300), 30))]
+                # an expired, still stored delegation entry A -> C while B holds the role too: renewal by the other holder
+                ("E3", "Inits3", 3 if T else 2, "ModesOwn", None),
+                ("R", "InitsAll", 1000, "ModesAll", ("num=%d" % (1500 if T else 300), 30))]
         for tag, inits, max_ops, modes, sim in runs:
-            mc = au.tlc_asis(ctx, "Auth_asis_%s.cfg" % tag, dev, inits, max_ops, modes, simulate=sim[0] if sim else None, depth=sim[1] if sim else None)
+            mc = au.tlc_asis(ctx, "Auth_asis_%s.cfg" % tag, dev, inits, max_ops, modes, simulate=sim[0] if sim else None, depth=sim[1] if sim else None,
+                             max_t=4 if tag == "E3" else 3)
             if not mc:
                 continue
             r, edges, inits_ = mc
